@@ -2181,6 +2181,52 @@ func ruleConstIndexGuarded(r *Run, rels []string, floor int) {
 					safe = safe || (cv == 0 && k == 0)
 				}
 			}
+			if !safe && k == 0 {
+				// a parameter of an unexported helper: non-empty when every call site hands it s[i:] under i < len(s)
+				if q, ok := spillParam(unspill(x)).(*ssa.Parameter); ok && q.Parent() == fn && fn.Object() != nil && !fn.Object().Exported() {
+					idx := -1
+					for i, prm := range fn.Params {
+						if prm == q {
+							idx = i
+						}
+					}
+					calls, okAll := 0, idx >= 0
+					for _, g := range p.SrcFuncs() {
+						if pkgOfFunc(g) != pkgOfFunc(fn) {
+							continue
+						}
+						for _, c := range callsIn(g) {
+							if staticCallee(c) != fn {
+								continue
+							}
+							calls++
+							sl, isSl := unspill(c.Common().Args[idx]).(*ssa.Slice)
+							if !isSl || sl.High != nil || sl.Low == nil {
+								okAll = false
+								continue
+							}
+							bounded := false
+							for _, f := range factsAt(c.Block()) {
+								b, ok := f.Cond.(*ssa.BinOp)
+								if !ok || !f.Truth || b.Op != token.LSS || b.X != sl.Low {
+									continue
+								}
+								if lc, ok := b.Y.(*ssa.Call); ok {
+									if bi, ok := lc.Call.Value.(*ssa.Builtin); ok && bi.Name() == "len" && (lc.Call.Args[0] == sl.X || describe(lc.Call.Args[0], 0) == describe(sl.X, 0)) {
+										bounded = true
+									}
+								}
+							}
+							if !bounded {
+								okAll = false
+							}
+						}
+					}
+					if okAll && calls > 0 {
+						safe = true
+					}
+				}
+			}
 			if !safe {
 				good = false
 				o.Fail(r.pos(at.Pos()), "%s: %s is indexed/sliced at constant %d without a dominating length test", shortFuncName(fn), describe(x, 0), k)
